@@ -8,9 +8,15 @@ import (
 	"strings"
 	"sync"
 
+	"database/sql"
 	"github.com/Query-farm/vgi-rpc-go/vgirpc"
 	"github.com/apache/arrow-go/v18/arrow"
 	"github.com/apache/arrow-go/v18/arrow/array"
+	"io"
+	"io/fs"
+	"net"
+	"net/http"
+	"os"
 )
 
 // A script-driven service: every handler's behaviour (logs, outcome, turn
@@ -36,6 +42,8 @@ type ErrSpec struct {
 	// RID, when set, is carried in the RpcError's RequestID field: the id of
 	// the upstream call the relayed error came from, not this call's.
 	RID string `json:"rid,omitempty"`
+	// Sentinel names the wrapped standard-library error of kind "sentinel" (one of SentinelNames).
+	Sentinel string `json:"sentinel,omitempty"`
 }
 
 type UnaryScript struct {
@@ -101,6 +109,21 @@ func (e *ErrSpec) Build() error {
 			err = fmt.Errorf("layer%d: %w", i, err)
 		}
 		return err
+	case "sentinel":
+		// a failure of something the handler called: a standard-library sentinel
+		// (deadline of the handler's own context, closed pipe, ...) wrapped Depth+1 times
+		var err error = Sentinels[e.Depth%len(Sentinels)]
+		if e.Sentinel != "" {
+			for i, sn := range SentinelNames {
+				if sn == e.Sentinel {
+					err = Sentinels[i]
+				}
+			}
+		}
+		for i := 0; i <= e.Depth; i++ {
+			err = fmt.Errorf("%s (layer%d): %w", e.Msg, i, err)
+		}
+		return err
 	case "custom":
 		return &CustomErr{M: e.Msg}
 	case "kinded":
@@ -121,6 +144,12 @@ func (e *ErrSpec) Build() error {
 	}
 	return fmt.Errorf("unknown error spec %q", e.Kind)
 }
+
+// Sentinels are standard-library error values application code commonly returns wrapped.
+var Sentinels = []error{context.Canceled, context.DeadlineExceeded, io.EOF, io.ErrUnexpectedEOF, io.ErrClosedPipe, os.ErrDeadlineExceeded, net.ErrClosed, http.ErrHandlerTimeout, sql.ErrNoRows, fs.ErrNotExist}
+
+// SentinelNames are the ErrSpec.Sentinel spellings that select one of Sentinels.
+var SentinelNames = []string{"context.Canceled", "context.DeadlineExceeded", "io.EOF", "io.ErrUnexpectedEOF", "io.ErrClosedPipe", "os.ErrDeadlineExceeded", "net.ErrClosed", "http.ErrHandlerTimeout", "sql.ErrNoRows", "fs.ErrNotExist"}
 
 // IsPanic reports whether the spec panics instead of returning.
 func (e *ErrSpec) IsPanic() bool { return strings.HasPrefix(e.Kind, "panic_") }
